@@ -64,9 +64,15 @@ static Verdict runH(const H &h) {
       cur += (size_t)n;
       prev_partial_with_null = n > 0 && inside_page(cur) && m.max_def > 0 && m.vstart[cur] < cur;
     } else if (o.kind == 2) {
+      // the way callers write cursor code: query, advance, query again in one stretch (the second query must see the advance -
+      // also when this harness is compiled with optimisation and the header's function attributes take effect)
+      int64_t r0 = carquet_column_remaining(cr); bool h0 = carquet_column_has_next(cr);
       int64_t s = carquet_column_skip(cr, o.k);
+      int64_t r1 = carquet_column_remaining(cr); bool h1 = carquet_column_has_next(cr);
       size_t want = std::min<size_t>((size_t)o.k, rem);
       PBT_CHECK(vd, s == (int64_t)want, "op %zu skip(%d) at row %zu advanced by %lld, must be min(n, remaining) = %zu", oi, o.k, cur, (long long)s, want);
+      PBT_CHECK(vd, r0 == (int64_t)rem && r1 == (int64_t)(rem - want), "op %zu skip(%d): remaining() %lld before and %lld after, rows not yet delivered %zu before and %zu after", oi, o.k, (long long)r0, (long long)r1, rem, rem - want);
+      PBT_CHECK(vd, h0 == (rem > 0) && h1 == (rem - want > 0), "op %zu skip(%d): has_next() %d before and %d after with %zu / %zu rows not yet delivered", oi, o.k, (int)h0, (int)h1, rem, rem - want);
       for (auto e2 : pend) if (e2 > cur && e2 < cur + want) nt_skipcross = true;
       cur += want;
       prev_partial_with_null = false;
